@@ -31,7 +31,9 @@ impl IoDriver {
     }
 
     pub(crate) async fn open(&self, path: impl AsRef<Path>) -> IOResult<File> {
-        File::from_file(path, |f| f.create(false).append(true).read(true)).await
+        // not `append(true)`: on Linux pwrite() on an O_APPEND descriptor ignores the offset and
+        // appends at the end of the file, but every write here goes to the offset reserved for it
+        File::from_file(path, |f| f.create(false).write(true).read(true)).await
     }
 
     pub(crate) async fn create(&self, path: impl AsRef<Path>) -> IOResult<File> {
